@@ -137,3 +137,70 @@ def strip_wrappers(t: Term, names=("list", "tuple", "iter")) -> Term:
 def _comp_level(t: Term) -> int:
     # level of the (single) generator variable of a comprehension: smallest bv in elt, if elt is a bare bv
     return t[2][1] if t[2][0] == "bv" else -1
+
+
+EXCLUDED_FROM_RUN = ("src.diagnostic", "src.plot_alignments", "src.compare_alignments", "sv.")
+
+
+def run_roots(ctx: Ctx) -> List[FunctionInfo]:
+    return [ctx.p.get_function("src.program:Program.__init__"), ctx.p.get_function("src.program:Program.run")]
+
+
+def run_reach(ctx: Ctx, extra_roots: Iterable[FunctionInfo] = ()) -> List[FunctionInfo]:
+    """Functions reachable from Program.__init__/run, without the diagnostics extensions, plots and scripts
+    (the dispatcher discards handler results; DESIGN.md C09.3)."""
+    reach = ctx.cg.reach(run_roots(ctx) + list(extra_roots))
+    out = []
+    for q in sorted(reach):
+        fn = ctx.p.functions[q]
+        if fn.module.is_test:
+            continue
+        if any(fn.module.name.startswith(x) for x in EXCLUDED_FROM_RUN):
+            continue
+        out.append(fn)
+    return out
+
+
+def path_terms(pa: Path):
+    """(term, facts-at-that-point, node, kind) for everything evaluated on a path."""
+    for e in pa.events:
+        if e.term is not None:
+            yield e.term, (e.facts or {}), e.node, e.kind
+        if e.extra:
+            for k in ("base", "index", "target", "value"):
+                v = e.extra.get(k)
+                if isinstance(v, tuple) and v and isinstance(v[0], str):
+                    yield v, (e.facts or {}), e.node, e.kind + ":" + k
+    if pa.value is not None:
+        yield pa.value, pa.facts, pa.node, pa.outcome
+
+
+def parallel_map_site(ctx: Ctx):
+    """(function, call node, map name, worker FunctionInfo) for the p_tqdm map inside the coordinators' execute."""
+    found = []
+    for cls_name in ("_WorkflowCoordinator",):
+        cls = ctx.p.find_class(cls_name)
+        for m in cls.methods.values():
+            for site in ctx.cg.sites.get(m.qualname, []):
+                for c in site.callees:
+                    if c.kind == "ext" and c.name.split(".")[0] == "p_tqdm":
+                        found.append((m, site.node, c.name.split(".")[-1]))
+    if len(found) != 1:
+        raise AnalysisError(f"expected exactly one p_tqdm map in _WorkflowCoordinator, found {len(found)}")
+    fn, call, name = found[0]
+    if not call.args:
+        raise AnalysisError(f"{where(fn, call)}: parallel map without a positional worker argument")
+    from ..types import FuncT
+    wt = ctx.t.type_of(fn, call.args[0])
+    if not isinstance(wt, FuncT):
+        raise AnalysisError(f"{where(fn, call)}: worker passed to {name} is not a resolvable function")
+    worker = wt.fn
+    # a lambda that just forwards to a method: the method is the worker
+    target = worker
+    if worker.is_lambda:
+        body = worker.node.body
+        if isinstance(body, ast.Call):
+            cs = [c for c in ctx.cg.resolve_call(worker, body) if c.kind == "fn"]
+            if len(cs) >= 1:
+                target = cs[0].fn
+    return fn, call, name, worker, target
